@@ -498,8 +498,17 @@ pub fn run(ctx: &Ctx) {
     ctx.bound("machine_inits", json!(inits.len()));
     let eqpool = pool(if quick { 3 } else { 5 }, true);
     ctx.bound("machine_equality_pool", json!(eqpool.len()));
-    let m = Machine { sp: spec(), inits, pool: mpool, eqpool, max_depth: depth, ctx: ctx as *const Ctx as usize };
+    let deep_inits: Vec<Known> = inits.iter().filter(|k| k.aj.is_some()).take(6).chain(inits.iter().filter(|k| k.aj.is_none()).take(1)).cloned().collect();
+    let m = Machine { sp: spec(), inits, pool: mpool, eqpool: eqpool.clone(), max_depth: depth, ctx: ctx as *const Ctx as usize };
     let o = crate::bfs::explore(&m, depth as usize, |s| s.bad.clone(), 8);
     crate::bfs::finish(ctx, "ed.machine", &o, depth as usize);
+    if ctx.deep {
+        // longer histories over a narrower menu: two pool points, seven initial states, depth 5
+        let d2 = 5u8;
+        let m2 = Machine { sp: spec(), inits: deep_inits, pool: pool(2, false), eqpool, max_depth: d2, ctx: ctx as *const Ctx as usize };
+        ctx.bound("deep_machine", json!({"depth": d2, "pool": m2.pool.len(), "inits": m2.inits.len()}));
+        let o2 = crate::bfs::explore(&m2, d2 as usize, |s| s.bad.clone(), 8);
+        crate::bfs::finish(ctx, "ed.machine.deep", &o2, d2 as usize);
+    }
     ctx.sample_tag("machine", json!({"depth": depth, "note": "BFS over raw (X,Y,Z,T) representations; each transition = one real group operation checked against the affine law, curve equation, compress and predicates"}));
 }
